@@ -164,6 +164,15 @@ def to_rows(t):
     return [[int(x) for x in row] for row in t.tolist()]
 
 
+def _from_lists(torch, name, d, level):
+    """inverse of State._get_value_as_dict_of_lists for the 1-D (population) / 2-D (individual) values of the shadow graphs"""
+    if list(d) == [name]:
+        col = torch.tensor(d[name], dtype=torch.int64)
+        return col if level == "p" else col[:, None]
+    cols = [d[f"{name}_{i}"] for i in range(len(d))]
+    return torch.tensor(cols, dtype=torch.int64).T
+
+
 def fmt_rows(rows):
     return "/".join(",".join(str(x) for x in r) for r in rows)
 
@@ -312,7 +321,17 @@ class Runner:
     def op_get(self, sid, name):
         st = self.states[sid]
         want = self.sh.eval_from_scratch(self.indep_of(sid))[name]
-        status, v = self.call(lambda: st[name])
+        # the same read through the different public accessors of State (all must agree with the from-scratch value)
+        api = self.rng.choice(["item", "item", "item", "tensor", "tensors", "aslists"])
+        if api == "item":
+            status, v = self.call(lambda: st[name])
+        elif api == "tensor":
+            status, v = self.call(lambda: st.get_tensor_value(name))
+        elif api == "tensors":
+            status, v = self.call(lambda: st.get_tensor_values([name])[0])
+        else:
+            status, v = self.call(lambda: _from_lists(self.env["torch"], name, st._get_value_as_dict_of_lists(name), self.sh.level[name]))
+        self.tag("get-" + api)
         r = self.sh.rank[name]
         if status == "ok":
             rows = to_rows(v)
@@ -659,12 +678,18 @@ class RealOracle:
     def check_read(self, st, name, ctx):
         torch = self.env["torch"]
         self.reads += 1
+        api = self.rng.choice(["item", "item", "tensor", "tensors"])
+        acc = {"item": lambda s_: s_[name], "tensor": lambda s_: s_.get_tensor_value(name),
+               "tensors": lambda s_: s_.get_tensor_values([name])[0]}[api]
         try:
-            got = st[name]
+            got = acc(st)
         except Exception as e:  # noqa
             got = e
         try:
             want = from_scratch(self.env, st, name)
+            if api != "item" and not isinstance(want, Exception):
+                from leaspy.utils.weighted_tensor import WeightedTensor
+                want = want.weighted_value if isinstance(want, WeightedTensor) else want
         except Exception as e:  # noqa
             want = e
         if isinstance(got, Exception) or isinstance(want, Exception):
